@@ -289,7 +289,30 @@ def r4(ctx):
             yield VIOL("C09-R4", "canonicalize_uri_path/%s-test-missing" % nm, "no equality test of a component with %r" % dot, where=loc(b.j["span"]))
             continue
         bi, t, ssl = found[dot]
-        if not ssl.has_call(r"canonical::normalize_uri_path_component$"):
+        # the compared value must be the normalised component itself (the `?` of normalize_uri_path_component), not the
+        # raw vector element (which merely may have been overwritten with a normalised value earlier)
+        subj_op = t["args"][0] if dot not in [v for v in b.slice_op(t["args"][0]).const_values()] else t["args"][1]
+        od = b.origin_def(subj_op)
+        direct = False
+        hops = 0
+        while od and hops < 6:
+            hops += 1
+            if od[0] == "place":
+                base = od[1]["local"]
+                bd = b.single_def(base)
+                if bd and bd["kind"] == "call" and re.search(r"Try::branch$", bd["term"]["callee"]):
+                    inner = b.origin_def(bd["term"]["args"][0])
+                    direct = bool(inner and inner[0] == "def" and inner[1]["kind"] == "call" and re.search(r"canonical::normalize_uri_path_component$", inner[1]["term"]["callee"]))
+                break
+            if od[0] == "multi":
+                ds = [d for d in b.defs().get(od[1], []) if d["kind"] == "assign"]
+                od = b.origin_def(ds[0]["stmt"]["rv"]["op"]) if len(ds) == 1 and ds[0]["stmt"]["rv"]["k"] == "use" else None
+                continue
+            if od[0] == "def" and od[1]["kind"] == "call" and re.search(r"Deref::deref$|AsRef::as_ref$|String::as_str$", od[1]["term"]["callee"]):
+                od = b.origin_def(od[1]["term"]["args"][0])
+                continue
+            break
+        if not direct or not ssl.has_call(r"canonical::normalize_uri_path_component$"):
             yield VIOL("C09-R4", "canonicalize_uri_path/%s-on-raw" % nm, "%r is tested on the raw component, not the normalised one (`%%2E` spellings would not be resolved)" % dot, where=b.span_of_block(bi))
             continue
         a, ts, fs = switch_on_call(b, bi)
